@@ -246,6 +246,10 @@ def run(ctx, rep) -> None:
 
     rep.rule("C11.5", "the eigen solver is a function of its tensor arguments: no in-place operation lands in the caller's matrix (the ridge is formed out of place)")
     rep.attempt("tensor_arguments_are_inputs", tensor_arguments_are_inputs, ctx, rep, "C11.5")
+    from .c10 import dispatch_rules
+
+    rep.rule("C11.6", "the eigen solver is reached with the matrix, the rational root and epsilon it was asked for (dispatch forwards root, not a part of it)")
+    rep.attempt("dispatch_rules", dispatch_rules, ctx, rep, "C11.6")
     from .c12 import defaults_agree_with_configs
 
     rep.attempt("defaults_agree_with_configs", defaults_agree_with_configs, ctx, rep, "C11.3")
